@@ -4,6 +4,7 @@ mod c15;
 mod cases;
 mod gal;
 mod genlib;
+mod lint;
 mod rng;
 
 use std::path::PathBuf;
@@ -52,6 +53,7 @@ fn main() {
     let a = parse_args();
     match a.cmd.as_str() {
         "c15" => c15::generate(a.seed, a.n, a.thorough).write(&a.out, a.shards, a.only),
+        "lint" => lint::run(&a.rest),
         _ => {
             eprintln!("usage: vharness <c15|...> --seed S --n N --shards K --out DIR [--only I] [--thorough]");
             std::process::exit(2);
